@@ -141,6 +141,11 @@ impl Sim {
     }
 
     pub fn new() -> Sim {
+        Sim::new_with(false)
+    }
+
+    /// `perm`: the channel is set up with a permanent id that differs from its initial id (LDK-style flow)
+    pub fn new_with(perm: bool) -> Sim {
         let persister: Arc<SimPersister> =
             Arc::new(KVVPersister(CloudKVVStore::new(MemoryKVVStore::new([7u8; 16])), JsonFormat));
         let clock = Arc::new(ManualClock::new(Duration::from_secs(1_600_000_000)));
@@ -166,7 +171,27 @@ impl Sim {
             }
             persister.update_tracker(&node_ctx.node.get_id(), &tracker).unwrap();
         }
-        let chan_ctx = fund_test_channel(&node_ctx, CHANNEL_VALUE);
+        let chan_ctx = if !perm {
+            fund_test_channel(&node_ctx, CHANNEL_VALUE)
+        } else {
+            // fund_test_channel, but setup_channel gets a permanent id different from id0
+            let incoming = CHANNEL_VALUE + 2_000_000;
+            let change = incoming - CHANNEL_VALUE - 1000;
+            let mut chan_ctx = test_chan_ctx(&node_ctx, 1, CHANNEL_VALUE);
+            let mut tx_ctx = TestFundingTxContext::new();
+            tx_ctx.add_wallet_input(&node_ctx, SpendType::P2wpkh, 1, incoming);
+            tx_ctx.add_wallet_output(&node_ctx, SpendType::P2wpkh, 1, change);
+            let ndx = tx_ctx.add_channel_outpoint(&node_ctx, &chan_ctx, CHANNEL_VALUE);
+            let tx = tx_ctx.to_tx();
+            chan_ctx.setup.funding_outpoint = lightning_signer::bitcoin::OutPoint { txid: tx.compute_txid(), vout: ndx };
+            let perm_id = ChannelId::new(&[0xabu8; 32]);
+            node_ctx.node.setup_channel(chan_ctx.channel_id.clone(), Some(perm_id), chan_ctx.setup.clone(), &DerivationPath::master()).expect("setup_channel");
+            let mut commit_tx_ctx = channel_initial_holder_commitment(&node_ctx, &chan_ctx);
+            let (csig, hsigs) = counterparty_sign_holder_commitment(&node_ctx, &chan_ctx, &mut commit_tx_ctx);
+            validate_holder_commitment(&node_ctx, &chan_ctx, &commit_tx_ctx, &csig, &hsigs).expect("valid holder commitment");
+            tx_ctx.sign(&node_ctx, &tx).expect("witvec");
+            chan_ctx
+        };
         // approve the two payment hashes the commitment contents use, so that commitments carrying
         // outgoing HTLCs pass the payment-balance validation and reach the later checks
         // (mirrored by the initial state of lean/VlsModel/Drv/NodeReq.lean)
@@ -360,11 +385,18 @@ impl Sim {
     pub fn allowlist(&mut self, op: &str, kind: &str) -> (Outcome, usize) {
         let good1 = "tb1qhetd7l0rv6kca6wvmt25ax5ej05eaat9q29z7z".to_string();
         let good2 = "tb1qycu764qwuvhn7u0enpg0x8gwumyuw565f3mspnn58rsgar5hkjmqtjegrh".to_string();
+        // a third valid address (one of the node's own), "x" in the digest
+        let good3 = make_test_funding_wallet_addr(&self.node(), 5, SpendType::P2wpkh).to_string();
         let list: Vec<String> = match kind {
             "g" => vec![good1],
             "g2" => vec![good2],
+            "x" => vec![good3],
             "b" => vec!["bogus".into()],
             "m" => vec![good2, "bogus".into()],
+            "gx" => vec![good1, good3],
+            "xg" => vec![good3, good1],
+            "g2g" => vec![good2, good1],
+            "ggd" => vec![good1.clone(), good1],
             _ => vec![good1, good2],
         };
         let op = op.to_string();
@@ -638,7 +670,7 @@ pub fn gen_ops(rng: &mut Rng, len: usize) -> Vec<String> {
     let mut ops = Vec::new();
     while ops.len() < len {
         // legit bursts keep the channel moving so that refusals are reached from many states
-        match rng.below(12) {
+        match rng.below(13) {
             0 | 1 => {
                 // a complete holder update
                 ops.push(format!("vh 0 g {}", rng.below(9)));
@@ -659,6 +691,12 @@ pub fn gen_ops(rng: &mut Rng, len: usize) -> Vec<String> {
                 for _ in 0..rng.range(2, 5) {
                     ops.push(format!("ks {}", *rng.pick(&[1000u64, 2000, 5_000_000])));
                 }
+                continue;
+            }
+            10 => {
+                // multi-entry allowlist removals whose last entry is absent / duplicated
+                ops.push(format!("al add {}", rng.pick(&["g", "gg", "gx"])));
+                ops.push(format!("al rm {}", rng.pick(&["gx", "xg", "g2g", "ggd", "gg"])));
                 continue;
             }
             9 if ops.len() < 4 => {
@@ -711,7 +749,7 @@ pub fn gen_ops(rng: &mut Rng, len: usize) -> Vec<String> {
             12..=14 => format!("cpr {} {}", d, if rng.chance(3, 4) { "g" } else { "b" }),
             15 => format!("sh {}", *rng.pick(&[0i64, 0, 1, -1])),
             16 => format!("mc{} {}", if rng.chance(1, 2) { "1" } else { "" }, if rng.chance(1, 2) { "g" } else { "b" }),
-            17..=19 => format!("al {} {}", rng.pick(&["add", "set", "rm"]), rng.pick(&["g", "g2", "b", "m", "gg"])),
+            17..=19 => format!("al {} {}", rng.pick(&["add", "set", "rm"]), rng.pick(&["g", "g2", "b", "m", "gg", "x", "gx", "xg", "g2g", "ggd"])),
             20..=21 => format!("ks {}", *rng.pick(&[1000u64, 5_000_000, 100_000_000_000, 0])),
             22 => format!("ksdup {}", rng.range(1, 5000)),
             23 => format!("newch {}", rng.range(1, 6)),
